@@ -16,7 +16,13 @@
    reorder buffer drained while contiguous): it is proved safe for all inputs (C01_toy_arq_safe), complete
    when every segment arrives in any order with duplicates and foreign segments (C01_toy_arq_complete), and
    the two stream theorems are instantiated with it (…_toy_arq, no ARQ hypothesis left). The toy ARQ is a
-   witness of satisfiability; it is NOT a model of kcp-go. *)
+   witness of satisfiability; it is NOT a model of kcp-go.
+   Composition over many carriers (section "multi-carrier composition" below): the premise of the two stream
+   theorems — every packet handed to the receiving endpoint was queued from some one fresh carrier fed an honest
+   cut stream — is PROVED over the server's carrier layer [srun] for every schedule (Proofs/CarrierMultiProofs.v,
+   Proofs/PacketPathMultiProofs.v); what remains as hypothesis is the schedule-level [honest_carriers] (the bytes
+   sent on every carrier that presented the ClientID are a prefix of an honest sender's stream), which the relay
+   section derives, one hop further out, from the model of the proxy's copyLoop (Model/CopyLoop.v). *)
 From Coq Require Import List NArith Bool Arith.
 From Snow Require Import Lib.Wire Model.Encap Proofs.EncapProofs Model.CarrierLayer Proofs.CarrierProofs Proofs.PacketPathProofs.
 From Snow Require Import Model.Redial Proofs.RedialProofs.
